@@ -214,7 +214,77 @@ def gen_tcp(ctx):
     # both directions blocked in Write, then one peer goes away
     add("both-blocked-client-close", P(big, "none", "close", 300), P(big, "none", "wait"))
     add("both-blocked-covert-rst", P(big, "none", "wait"), P(big, "none", "rst", 300))
+    cases += gen_tcp_slow(ctx) + gen_tcp_probe(ctx)
     return cases
+
+
+def gen_tcp_slow(ctx):
+    """the receiver is SLOWER than the sender and complete: the sender pushes several MiB (far above every socket
+    buffer), ends its stream cleanly (half-close or close) and the peer on the other side drains at its own pace
+    (throttled in the peer, fixed receive buffer) until ITS stream ends.  At teardown the relay has written and
+    counted bytes that still sit in the station's kernel send queue."""
+    rng = ctx.rng
+    cases = []
+
+    def slow_reader(size):
+        chunk = rng.choice([16, 32, 64])
+        total_s = rng.uniform(0.7, 1.5)                      # time the peer needs for the whole stream
+        pause = int(total_s * 1e6 / max(1, size // (chunk * 1024)))
+        return {"send": 0, "read": "slow", "end": "wait", "delay_ms": 0, "chunk_kb": chunk, "pause_us": pause,
+                "rcvbuf": rng.choice([65536, 131072, 262144])}
+
+    def sender(size, end):
+        return {"send": size, "read": "drain", "end": end, "delay_ms": 0, "send_all": True}
+    combos = [(d, e) for d in ("up", "down") for e in ("closewrite", "close")]
+    combos.append((rng.choice(["up", "down"]), rng.choice(["closewrite", "close"])))
+    if ctx.tier != "quick":
+        combos += [(rng.choice(["up", "down"]), rng.choice(["closewrite", "close"])) for _ in range(6)]
+    for i, (d, end) in enumerate(combos):
+        size = rng.randrange(3 << 20, 6 << 20) + rng.choice([0, 1, 4095, 32767, 32769])
+        snd, rcv = sender(size, end), slow_reader(size)
+        client, covert = (snd, rcv) if d == "up" else (rcv, snd)
+        cases.append({"name": "slow-%s-%s%s" % (d, end, "" if i < 4 else "-r%d" % i), "client": client, "covert": covert,
+                      "bound_ms": 15000, "big_buf": True})
+    return cases
+
+
+def gen_tcp_probe(ctx):
+    """small tunnels ended by either peer in every way, with duplicate descriptors of both station sockets held by the
+    driver: what the relay's shutdown calls left on the sockets (SO_LINGER on/seconds, half shutdowns, descriptor
+    closed) is read back afterwards and compared with the model's shutdown-call log, arguments included"""
+    rng = ctx.rng
+    P = lambda send=0, read="drain", end="wait", delay=0: {"send": send, "read": read, "end": end, "delay_ms": delay}
+    cases = []
+    for end in ("closewrite", "close", "rst"):
+        n = rng.choice([0, 1, 1000, 40000])
+        cases.append({"name": "probe-client-" + end, "client": P(n, "drain", end, 30), "covert": P(rng.choice([0, 500]), "drain", "wait"),
+                      "bound_ms": 15000, "probe": True})
+        n = rng.choice([0, 1, 1000, 40000])
+        cases.append({"name": "probe-covert-" + end, "client": P(rng.choice([0, 500]), "drain", "wait"), "covert": P(n, "drain", end, 30),
+                      "bound_ms": 15000, "probe": True})
+    return cases
+
+
+def tcp_faithful_dirs(c):
+    """directions of a real-TCP case in which the property promises complete delivery AT THE PEER: the sender handed
+    everything to the kernel and ended its stream cleanly, the receiver reads until its own stream ends and never fails"""
+    out = []
+    nm = c["name"]
+    if nm.startswith("slow-up") or nm.startswith("client-sends-then-closewrite") or nm == "probe-client-closewrite":
+        out.append(("up", "client", "covert", "bytesUp"))
+    if nm.startswith("slow-down") or nm.startswith("covert-sends-then-closewrite") or nm == "probe-covert-closewrite":
+        out.append(("down", "covert", "client", "bytesDown"))
+    return [d for d in out if c[d[2]]["read"] in ("drain", "slow") and c[d[2]]["end"] == "wait"]
+
+
+SHUT_WR_STATES = (4, 5, 6, 9, 11)     # FIN_WAIT1/2, TIME_WAIT, LAST_ACK, CLOSING: this side has sent a FIN
+
+
+def probe_tuple(pr):
+    """(found, linger on, seconds, shutdown(SHUT_WR) seen, shutdown(SHUT_RD) seen, own descriptor closed)"""
+    shut_wr = pr["state"] in SHUT_WR_STATES
+    shut_rd = pr["peek"] == "eof" and pr["state"] in (1, 4, 5)       # end of stream although the peer has sent no FIN
+    return (bool(pr["found"]) and not pr["err"], pr["lingerOn"] != 0, max(pr["lingerSecs"], 0), shut_wr, shut_rd, bool(pr["origClosed"]))
 
 
 def check_tcp(ctx, cases, out):
@@ -239,7 +309,7 @@ def check_tcp(ctx, cases, out):
             o = r[side]
             # a peer that was not reading sees the end only after the station's lingering socket has pushed out its
             # backlog (zero-window probes back off for many seconds): closure is judged at the peers that read
-            if c[side]["read"] == "drain" and (o["sawClose"] == "" or o["sawClose"].startswith("other")):
+            if c[side]["read"] in ("drain", "slow") and (o["sawClose"] == "" or o["sawClose"].startswith("other")):
                 ctx.fail("not-closed/%s/%s" % (key, side), "after Proxy returned the %s peer did not see its connection closed "
                          "(read side ended with %r)" % (side, o["sawClose"]), slim)
             if not o["gotOK"]:
@@ -250,6 +320,36 @@ def check_tcp(ctx, cases, out):
         if graceful and (r["covert"]["got"] != r["client"]["sent"] or r["client"]["got"] != r["covert"]["sent"]):
             ctx.fail("lost-data/" + key, "graceful half-close, yet %d of %d bytes arrived up and %d of %d down"
                      % (r["covert"]["got"], r["client"]["sent"], r["client"]["got"], r["covert"]["sent"]), slim)
+        # faithful forwarding judged AT THE PEER: delivered = counted = sent, the same bytes, then a clean end of stream
+        for d, snd, rcv, cnt in tcp_faithful_dirs(c):
+            so, ro = r[snd], r[rcv]
+            if so["sent"] != c[snd]["send"]:
+                ctx.broken("driver", "real-TCP lane: the sending peer of %s got only %d of its %d bytes into the kernel"
+                           % (c["name"], so["sent"], c[snd]["send"]), slim)
+                continue
+            how = {"eof": "end of stream", "reset": "ECONNRESET", "": "nothing (no end within the bound)"}.get(ro["sawClose"], ro["sawClose"])
+            told = ("the tunnel reports %d bytes %s" % (r[cnt], d)) if r["summary"] else "no tunnel summary was printed"
+            if ro["got"] != so["sent"] and not graceful:
+                ctx.fail("lost-data/%s/%s" % (key, d), "the %s peer sent %d bytes and ended its stream cleanly; the %s peer, slower but reading "
+                         "everything until its stream ended, received %d of them and then %s; %s (bytes the relay accepted and counted "
+                         "were still in the station's send queue at teardown)" % (snd, so["sent"], rcv, ro["got"], how, told), slim)
+            elif ro["got"] == so["sent"] and ro["hash"] != so["sentHash"]:
+                ctx.fail("corrupt/%s/%s" % (key, d), "the %s peer received %d bytes whose SHA-256 differs from that of the %d bytes sent"
+                         % (rcv, ro["got"], so["sent"]), slim)
+            if ro["sawClose"] != "eof":
+                ctx.fail("reset-instead-of-eof/%s/%s" % (key, d), "the %s peer ended its stream cleanly, yet the %s peer's stream ended with %s "
+                         "after %d of %d bytes instead of a clean end of stream" % (snd, rcv, how, ro["got"], so["sent"]), slim)
+            if not r["summary"]:
+                ctx.broken("driver", "real-TCP lane: no tunnel summary line in the log of %s" % c["name"], slim)
+            elif r[cnt] != ro["got"]:
+                ctx.fail("count/%s/%s" % (key, d), "the tunnel reports %d bytes %s but the %s peer received %d (sent: %d)"
+                         % (r[cnt], d, rcv, ro["got"], so["sent"]), slim)
+        if c.get("probe"):
+            for nm in ("probeA", "probeB"):
+                pr = r.get(nm)
+                if not pr or not pr["found"] or pr["err"]:
+                    ctx.broken("driver", "real-TCP lane: could not read the socket options of the station's %s socket in %s: %s"
+                               % ("client" if nm == "probeA" else "covert", c["name"], (pr or {}).get("err")), slim)
     if out["gauge1"] != out["gauge0"]:
         ctx.fail("gauge/tcp", "session gauge %d before the real-TCP lane, %d after every Proxy call ended" % (out["gauge0"], out["gauge1"]), {"mode": "tcp"})
     if out["gleak"] > 0:
@@ -492,7 +592,8 @@ def run(ctx):
     ctx.require_kinds(["half/nofault", "half/read-fault/data", "half/read-fault/nodata", "half/write-fault/short",
                        "half/write-fault/err", "half/deadline-fault", "half/close-fault", "half/close-blocks", "half/pair/read+write",
                        "half/pair/read+deadline", "half/large", "pair/exh-sched", "pair/random", "free/free", "proxy/dialfail",
-                       "tcp/down-blocked-client", "tcp/up-blocked-covert", "tcp/client-sends-then", "tcp/both-blocked-client"])
+                       "tcp/down-blocked-client", "tcp/up-blocked-covert", "tcp/client-sends-then", "tcp/both-blocked-client",
+                       "tcp/slow-up", "tcp/slow-down", "tcp/probe-client", "tcp/probe-covert"])
     idx = [i for i, t in enumerate(terms) if t is not None]
     # real-TCP lane: kinds seen by the driver, Proxy returned, the reading peers saw their connection closed
     tcp_terms, tcp_meta = [], []
@@ -503,17 +604,35 @@ def run(ctx):
 
             def seen(side):
                 o = r[side]
-                return c[side]["read"] != "drain" or (o["sawClose"] != "" and not o["sawClose"].startswith("other"))
+                return c[side]["read"] not in ("drain", "slow") or (o["sawClose"] != "" and not o["sawClose"].startswith("other"))
             tcp_terms.append("CTcp (%s, %s, %s, %s, %s)" % (gbool(r["clientKind"] == "tcp"), gbool(True), gbool(r["returned"]),
                                                               gbool(r["returned"] and seen("client")), gbool(r["returned"] and seen("covert"))))
-            tcp_meta.append((c, r))
+            tcp_meta.append((c, r, "connection kind TCP/TCP: caller returns, full SetLinger+Close on both connections"))
+            if c.get("probe") and r.get("probeA") and r.get("probeB") and r["probeA"]["found"] and r["probeB"]["found"] \
+                    and not r["probeA"]["err"] and not r["probeB"]["err"] and r["returned"]:
+                gp = lambda t: "(%s, %s, %s, %s, %s, %s)" % (gbool(t[0]), gbool(t[1]), gN(t[2]), gbool(t[3]), gbool(t[4]), gbool(t[5]))
+                tcp_terms.append("CTcpOps (%s, %s)" % (gp(probe_tuple(r["probeA"])), gp(probe_tuple(r["probeB"]))))
+                tcp_meta.append((c, r, "the shutdown calls and their arguments as read back from the station's sockets (SO_LINGER on/seconds, "
+                                 "half shutdowns, descriptor closed: client %s, covert %s) against the model's shutdown-call log "
+                                 "[SetLinger 10; Close]* executed on the socket model"
+                                 % (probe_tuple(r["probeA"])[1:], probe_tuple(r["probeB"])[1:])))
+            for d, snd, rcv, cnt in tcp_faithful_dirs(c):
+                if not c["name"].startswith("slow-") or not r["summary"] or r[snd]["sent"] != c[snd]["send"]:
+                    continue
+                ms = r[rcv]["endMs"] - r[snd]["actMs"] if r[rcv]["endMs"] >= 0 and r[snd]["actMs"] >= 0 else 99999
+                tcp_terms.append("CTcpSlow (%s, %s, %s, %s, %s, %s)" % (gbool(d == "up"), gN(r[snd]["sent"]), gN(r[rcv]["got"]), gN(r[cnt]),
+                                                                         gbool(r[rcv]["sawClose"] == "eof"), gN(max(ms, 0))))
+                tcp_meta.append((c, r, "slow-but-complete reader drained within the linger time (%d ms): the socket model delivers every written "
+                                 "byte and then EOF; observed %d of %d bytes, counted %d, stream ended with %r"
+                                 % (max(ms, 0), r[rcv]["got"], r[snd]["sent"], r[cnt], r[rcv]["sawClose"])))
     mm = ctx.coq_mismatches("hp", HEADER, [terms[i] for i in idx] + tcp_terms, "chk", shard=400, need_vo=["C05/Run.vo"])
-    if mm and mm[0] >= len(idx):
-        c, r = tcp_meta[mm[0] - len(idx)]
-        ctx.cov["mismatches"] += len(mm)
-        ctx.broken("correspondence", "model C05 (connection kind TCP/TCP: caller returns, full SetLinger+Close on both connections) and the "
-                   "implementation disagree on %d real-TCP case(s); first: %s" % (len(mm), c["name"]), {"case": dict(c, mode="tcp"), "observed": r})
-        mm = []
+    tcp_mm = [m for m in mm if m >= len(idx)]
+    mm = [m for m in mm if m < len(idx)]
+    if tcp_mm:
+        c, r, what = tcp_meta[tcp_mm[0] - len(idx)]
+        ctx.cov["mismatches"] += len(tcp_mm)
+        ctx.broken("correspondence", "model C05 and the implementation disagree on %d real-TCP term(s); first: %s — %s"
+                   % (len(tcp_mm), c["name"], what), {"case": dict(c, mode="tcp"), "observed": r})
     if mm:
         ctx.cov["mismatches"] += len(mm)
         i = idx[mm[0]]
